@@ -218,6 +218,21 @@ func (r *FnRun) calleeEnv(st, old *State, callee *ssa.Function, args []Val) *Env
 		env.vars[p.Name()] = args[i+k]
 		env.vtypes[p.Name()] = p.Type()
 	}
+	for k := range args {
+		env.vars[fmt.Sprintf("param%d", k)] = args[k]
+	}
+	if c := r.E.Contracts[fullName(callee)]; c != nil {
+		for k := range args {
+			if k < len(c.Params) && c.Params[k] != "_" {
+				if _, taken := env.vars[c.Params[k]]; !taken {
+					env.vars[c.Params[k]] = args[k]
+					if k < len(callee.Params) {
+						env.vtypes[c.Params[k]] = callee.Params[k].Type()
+					}
+				}
+			}
+		}
+	}
 	return env
 }
 
